@@ -9,6 +9,7 @@ require (
 	github.com/apache/dubbo-getty v1.5.0
 	github.com/arana-db/parser v0.2.17
 	github.com/go-sql-driver/mysql v1.6.0
+	github.com/prometheus/client_golang v1.12.2
 	google.golang.org/grpc v1.56.3
 	pgregory.net/rapid v1.3.0
 	seata.apache.org/seata-go v0.0.0
@@ -51,7 +52,6 @@ require (
 	github.com/pingcap/errors v0.11.5-0.20210425183316-da1aaba5fb63 // indirect
 	github.com/pingcap/log v0.0.0-20210906054005-afc726e70354 // indirect
 	github.com/pkg/errors v0.9.1 // indirect
-	github.com/prometheus/client_golang v1.12.2 // indirect
 	github.com/prometheus/client_model v0.2.0 // indirect
 	github.com/prometheus/common v0.32.1 // indirect
 	github.com/prometheus/procfs v0.7.3 // indirect
